@@ -298,7 +298,8 @@ class Target:
             return b""
         self.connected_msgs += 1
         conn.messages += 1
-        if len(dd) > conn.size:
+        oversize = len(dd) > conn.size
+        if oversize:
             self.event("C04/request-too-large", f"connected data item of {len(dd)} bytes on a connection of size {conn.size}")
         seq = struct.unpack_from("<H", dd, 0)[0]
         if conn.seqs is not None:
@@ -308,7 +309,11 @@ class Target:
             rep = conn.last_reply  # class-3 transport: duplicate is not delivered, last response is re-sent
         else:
             conn.last_seq = seq
-            rep = self._connected(dd[2:], conn, fr)
+            if oversize:
+                # more than the connection was opened for: nothing of it is executed, the request is refused ("too much data")
+                rep = W.build_mr_reply(dd[2] if len(dd) > 2 else 0, 0x15)
+            else:
+                rep = self._connected(dd[2:], conn, fr)
             if len(rep) + 2 > conn.size:
                 self.event("C04/reply-too-large", f"reply of {len(rep) + 2} bytes solicited on a connection of size {conn.size}")
                 svc = dd[2] if len(dd) > 2 else 0
